@@ -212,7 +212,7 @@ def worker(acc, shard, nshards, tier, seed):
         nt = case['ndim'] > 1 and any(len(set(p)) > 1 for p in list(case['s1']) + list(case['s2']))
         acc.case(sub, nontrivial=nt)
         acc.outcome(exp)
-        if acc.states % 20011 == 1:
+        if not acc.samples or acc.states % 20011 == 1:
             acc.sample(case)
     for nd, coll, inner, w in matrix_universe(tier, seed, shard, nshards):
         check_matrix(acc, E, coll, nd, inner, w)
